@@ -167,3 +167,176 @@ def sign_tail():
 
 def scenarios():
     return [sign_entry(k) for k in ('bytes', 'none', 'cleartext message', 'literal message')] + [sign_tail()]
+
+
+def sign_options():
+    """PGPKey._sign with every option that applies at any level: each maps to its subpacket, in the hashed area"""
+    label = 'C02/PGPKey._sign[options]'
+
+    def gen(repo):
+        r = scn.Run(repo, KEY, '_sign', label)
+        ex, st = r.ex, r.st
+        me = E.VObj(KEY, 'component')
+        FPR = E.VStr(z=z3.Const('FPR', B), cls='pgpy.types.Fingerprint')
+        r.hook(KEY, 'fingerprint', scn.const(FPR))
+        uid = E.VObj('pgpy.pgp.PGPUID', 'uid')
+        r.hook(KEY, 'get_uid', scn.mconst(uid))
+        SHA256 = E.VInt(8, enum='pgpy.constants.HashAlgorithm')
+        r.hook('pgpy.pgp.PGPUID', 'selfsig', scn.const(E.VObj(SIG, 'selfsig')))
+        r.hook(SIG, 'hashprefs', scn.const(ex.new_list(st, [SHA256])))
+        sig = E.VObj(SIG, 'sig')
+        r.hook(SIG, 'hash_algorithm', lambda ex, st, o, a: [(st, SHA256)])
+        r.hook(SIG, 'type', scn.const(E.VInt(0, enum='pgpy.constants.SignatureType')))
+        r.set('sig', '_signature', E.VObj('pgpy.packet.packets.SignatureV4', 'spkt'))
+        r.set('spkt', 'subpackets', E.VObj('pgpy.packet.fields.SubPackets', 'subp'))
+        r.set('spkt', '_signature', E.VObj('pgpy.packet.fields.EdDSASignature', 'sigfield'))
+        r.set('component', '_key', E.VObj('pgpy.packet.packets.PrivKeyV4', 'keypkt'))
+
+        def addnew_kw(ex, st, o, a, kws):
+            st.ghost['adds'] = st.ghost.get('adds', ()) + ((a, kws, st.ghost.get('hashed_already', False)),)
+            return [(st, E.VNone())]
+        addnew_kw.wants_kws = True
+        r.hook('pgpy.packet.fields.SubPackets', 'addnew', scn.method_hook(addnew_kw))
+
+        def hashdata(ex, st, o, a):
+            st.ghost['hashed_already'] = True
+            return [(st, E.VBytes(z3.Const('HD', B)))]
+        r.hook(SIG, 'hashdata', scn.method_hook(hashdata))
+        r.hook('pgpy.packet.packets.PrivKeyV4', 'sign', scn.mconst(E.VExt('signer-output', ())))
+        r.hook('pgpy.packet.fields.EdDSASignature', 'from_signer', scn.mconst(E.VNone()))
+        r.hook('pgpy.packet.packets.SignatureV4', 'update_hlen', scn.mconst(E.VNone()))
+        r.hook('pgpy.pgp.PGPUID', '__format__', scn.mconst(E.VStr(z=z3.Const('UID_TEXT', B))))
+        EXP = E.VExt('timedelta', ())
+        NAME, VAL, URI = E.VStr(z=z3.Const('NOTATION_NAME', B)), E.VStr(z=z3.Const('NOTATION_VALUE', B)), E.VStr(z=z3.Const('POLICY_URI', B))
+        kws = {'expires': EXP, 'notation': E.VDict([(NAME, VAL)]), 'revocable': E.VBool(False), 'policy_uri': URI, 'user': E.VStr(z=z3.Const('USER', B))}
+        for pi, (s, v) in enumerate(r.call(me, [E.VBytes(z3.Const('SUBJECT', B)), sig], kws)):
+            if isinstance(v, E.Raise):
+                r.oblige(s, 'safety(%s)/p%d' % (v.exc, pi), z3.BoolVal(False), v.where)
+                continue
+            adds = s.ghost.get('adds', ())
+            byname = {}
+            for a, k, late in adds:
+                if isinstance(a[0], E.VStr) and isinstance(a[0].s, str):
+                    byname.setdefault(a[0].s, []).append((k, late))
+
+            def one(name, pred):
+                xs = byname.get(name, [])
+                return len(xs) == 1 and not xs[0][1] and isinstance(xs[0][0].get('hashed'), E.VBool) and z3.is_true(xs[0][0]['hashed'].z) and pred(xs[0][0])
+            r.oblige(s, 'expires->SignatureExpirationTime(hashed)/p%d' % pi, z3.BoolVal(one('SignatureExpirationTime', lambda k: k.get('expires') is EXP)))
+            r.oblige(s, 'revocable=False->Revocable(hashed,false)/p%d' % pi,
+                     z3.BoolVal(one('Revocable', lambda k: isinstance(k.get('bflag'), E.VBool) and z3.is_false(z3.simplify(k['bflag'].z)))))
+            r.oblige(s, 'notation->NotationData(hashed,human-readable,name,value)/p%d' % pi,
+                     z3.BoolVal(one('NotationData', lambda k: k.get('name') is NAME and k.get('value') is VAL and isinstance(k.get('flags'), E.VInt) and k['flags'].conc() == 0x80)))
+            r.oblige(s, 'policy_uri->Policy(hashed)/p%d' % pi, z3.BoolVal(one('Policy', lambda k: k.get('uri') is URI)))
+            r.oblige(s, 'user->SignersUserID(hashed)/p%d' % pi, z3.BoolVal(one('SignersUserID', lambda k: isinstance(k.get('userid'), E.VStr))))
+            r.oblige(s, 'every-subpacket-added-before-hashing/p%d' % pi, z3.BoolVal(all(not late for _, _, late in adds)))
+        return r.result()
+    return Scenario(label, KEY + '._sign', gen, props=('C02',))
+
+
+_base = scenarios
+
+
+def scenarios():
+    return _base() + [sign_options()]
+
+
+def certify(kind):
+    """kind: 'self-uid' (own user id, all self-certification options), 'other-uid' (third party: trust, regex), 'key' (direct-key)"""
+    label = 'C02/PGPKey.certify[%s]' % kind
+
+    def gen(repo):
+        ST = repo.enum_members('pgpy.constants.SignatureType')
+        r = scn.Run(repo, KEY, 'certify', label)
+        ex, st = r.ex, r.st
+        me = E.VObj(KEY, 'component')
+        other = E.VObj(KEY, 'otherkey')
+        MYFP, OTHERFP = z3.Const('MY_FPR', B), z3.Const('OTHER_FPR', B)
+        st.pc.append(MYFP != OTHERFP)
+        KEYID = z3.Const('MY_KEYID', B)
+        r.hook(KEY, 'fingerprint', lambda ex, st, o, a: [(st, E.VStr(z=MYFP if o.ref == 'component' else OTHERFP, cls='pgpy.types.Fingerprint'))])
+        r.hook('pgpy.types.Fingerprint', 'keyid', scn.const(E.VStr(z=KEYID)))
+        r.hook('pgpy.types.Fingerprint', '__eq__', scn.method_hook(lambda ex, st, o, a: [(st, E.VBool(o.z == a[0].z))]))
+        ALG = z3.Int('key_algorithm')
+        r.hook(KEY, 'key_algorithm', scn.const(E.VInt(ALG, enum='pgpy.constants.PubKeyAlgorithm')))
+        newsig = E.VObj(SIG, 'newsig')
+        r.set('newsig', '_signature', E.VObj('pgpy.packet.packets.SignatureV4', 'spkt'))
+        r.set('spkt', 'subpackets', E.VObj('pgpy.packet.fields.SubPackets', 'subp'))
+        LEVEL = z3.Int('level')
+        certs = [ST[n] for n in ('Generic_Cert', 'Persona_Cert', 'Casual_Cert', 'Positive_Cert')]
+        st.pc.append(z3.Or(*[LEVEL == c for c in certs]))
+
+        def new_hook(ex, st, o, a):
+            st.ghost['new_args'] = a
+            st.heap[('spkt', '_sigtype')] = E.VInt(ex.as_int(a[0]), enum='pgpy.constants.SignatureType')
+            st.heap[('spkt', '_halg')] = a[2]
+            return [(st, newsig)]
+        r.hook(SIG, 'new', scn.method_hook(new_hook))
+        r.hook(SIG, 'hash_algorithm', lambda ex, st, o, a: [(st, st.heap.get(('spkt', '_halg'), E.VNone()))])
+
+        def addnew_kw(ex, st, o, a, kws):
+            st.ghost['adds'] = st.ghost.get('adds', ()) + ((a, kws),)
+            return [(st, E.VNone())]
+        addnew_kw.wants_kws = True
+        r.hook('pgpy.packet.fields.SubPackets', 'addnew', scn.method_hook(addnew_kw))
+
+        def _sign(ex, st, o, a, kws):
+            st.ghost['_sign'] = (o, a, kws)
+            return [(st, a[1])]
+        _sign.wants_kws = True
+        r.hook(KEY, '_sign', scn.method_hook(_sign))
+        uid = E.VObj('pgpy.pgp.PGPUID', 'uid')
+        r.hook('pgpy.types.ParentRef', '_parent', lambda ex, st, o, a: [(st, me if kind == 'self-uid' else other)])
+        OPT = {n: E.VExt('opt:' + n, ()) for n in ('usage', 'exportable', 'key_expiration', 'ciphers', 'compression', 'keyserver_flags', 'keyserver', 'primary', 'regex')}
+        OPT['hashes'] = ex.new_list(st, [E.VInt(10, enum='pgpy.constants.HashAlgorithm')])
+        OPT['trust'] = E.VTuple([E.VInt(1), E.VInt(60)])
+        subject = other if kind == 'key' else uid
+        kws = dict(OPT)
+        kws['level'] = E.VInt(LEVEL, enum='pgpy.constants.SignatureType')
+        kws['notation'] = E.VExt('passes-through', ())
+        want = {'self-uid': ['KeyFlags', 'ExportableCertification', 'KeyExpirationTime', 'PreferredSymmetricAlgorithms', 'PreferredHashAlgorithms',
+                             'PreferredCompressionAlgorithms', 'KeyServerPreferences', 'PreferredKeyServer', 'PrimaryUserID', 'Features'],
+                'other-uid': ['KeyFlags', 'ExportableCertification', 'TrustSignature', 'RegularExpression'],
+                'key': ['KeyFlags', 'ExportableCertification', 'TrustSignature', 'RegularExpression']}[kind]
+        argname = {'KeyFlags': ('flags', 'usage'), 'ExportableCertification': ('bflag', 'exportable'), 'KeyExpirationTime': ('expires', 'key_expiration'),
+                   'PreferredSymmetricAlgorithms': ('flags', 'ciphers'), 'PreferredHashAlgorithms': ('flags', 'hashes'),
+                   'PreferredCompressionAlgorithms': ('flags', 'compression'), 'KeyServerPreferences': ('flags', 'keyserver_flags'),
+                   'PreferredKeyServer': ('uri', 'keyserver'), 'PrimaryUserID': ('primary', 'primary'), 'RegularExpression': ('regex', 'regex')}
+        for pi, (s, v) in enumerate(r.call(me, [subject], kws)):
+            if isinstance(v, E.Raise):
+                r.oblige(s, 'safety(%s)/p%d' % (v.exc, pi), z3.BoolVal(False), v.where)
+                continue
+            na, sg = s.ghost.get('new_args'), s.ghost.get('_sign')
+            r.oblige(s, 'creates-and-signs-one-signature/p%d' % pi, z3.BoolVal(na is not None and sg is not None and v is newsig))
+            if na is None or sg is None:
+                continue
+            if kind == 'key':
+                r.oblige(s, 'certification-of-a-key-is-a-direct-key-signature/p%d' % pi, ex.as_int(na[0]) == ST['DirectlyOnKey'])
+            else:
+                r.oblige(s, 'certification-level-is-the-signature-type/p%d' % pi, ex.as_int(na[0]) == LEVEL)
+            r.oblige(s, 'algorithm-and-issuer-of-the-certifying-component/p%d' % pi,
+                     z3.And(ex.as_int(na[1]) == ALG, z3.BoolVal(isinstance(na[3], E.VStr) and na[3].z is not None), na[3].z == KEYID if isinstance(na[3], E.VStr) and na[3].z is not None else z3.BoolVal(False)))
+            adds = s.ghost.get('adds', ())
+            names = [a[0].s for a, k in adds]
+            r.oblige(s, 'exactly-the-subpackets-of-this-kind-of-certification(%s)/p%d' % (','.join(names), pi), z3.BoolVal(sorted(names) == sorted(want)))
+            for a, k in adds:
+                nm = a[0].s
+                hashed = isinstance(k.get('hashed'), E.VBool) and z3.is_true(k['hashed'].z)
+                good = hashed
+                if nm in argname:
+                    good = good and k.get(argname[nm][0]) is OPT[argname[nm][1]]
+                if nm == 'TrustSignature':
+                    good = good and isinstance(k.get('level'), E.VInt) and k['level'].conc() == 1 and isinstance(k.get('amount'), E.VInt) and k['amount'].conc() == 60
+                r.oblige(s, 'option->%s(hashed,value-unchanged)/p%d' % (nm, pi), z3.BoolVal(bool(good)))
+            o, a, k2 = sg
+            r.oblige(s, 'signed-by-the-same-component-over-the-given-subject/p%d' % pi, z3.BoolVal(o is me and a[0] is subject and a[1] is newsig))
+            r.oblige(s, 'remaining-options-reach-_sign/p%d' % pi, z3.BoolVal('notation' in k2 and not any(x in k2 for x in ('usage', 'exportable', 'hash', 'created'))))
+        return r.result()
+    return Scenario(label, KEY + '.certify', gen, props=('C02', 'C16'))
+
+
+_base2 = scenarios
+
+
+def scenarios():
+    return _base2() + [certify('self-uid'), certify('other-uid'), certify('key')]
